@@ -192,7 +192,9 @@ def concrete(cfg, rng):
     rho = {t: float(rng.uniform(0.04, 0.22)) for t in T}
     if cfg['om'] == 'copolymer':
         rho[T[1]] = rho[T[0]]
-    d = {'types': T, 'kT': float(rng.choice([1.0, 1.5, 0.8])), 'dr': 0.125, 'length': 256, 'rho': rho,
+    # grids: dyadic and non-dyadic spacings, lengths that are not powers of two
+    length, dr = [(256, 0.125), (256, 0.125), (300, 0.1), (512, 0.0625), (200, 0.15)][int(rng.integers(0, 5))]
+    d = {'types': T, 'kT': float(rng.choice([1.0, 1.5, 0.8])), 'dr': dr, 'length': length, 'rho': rho,
          'diam': {t: [1.0, 1.0, 1.5][i] for i, t in enumerate(T)}, 'pot': {}, 'clo': {}, 'omega': {},
          'assign': 'group' if rng.random() < 0.5 else 'pair'}
     for a, b in systems.pairs(T):
